@@ -2,7 +2,8 @@
 
 B1  TLC explores MC_RoadmLaw (RoadmLaw.tla): node policy of each kind written in the library or in the element,
     egress-degree setting absent / pch / psd / psw, add / drop / express, three channel types, inputs below / at /
-    above target mixed per channel, offsets, path loss per frequency range (per channel); clauses SinglePolicy, InvalidRejected, NeverAmplifies(+Step),
+    above target mixed per channel, offsets, path loss per frequency range (per channel), an egress degree set to
+    exactly 0 dBm, impairment profiles of the crossed path type listed out of id order / named by the element; clauses SinglePolicy, InvalidRejected, NeverAmplifies(+Step),
     EqualisedToTarget, BelowTargetLossOnly, TargetIsDegreeElseNode, LevelByKind as invariants.
 B2  every case TLC emits (configuration + per-channel inputs + the spec's expected outputs) is executed on a real Roadm of
     a small designed A-B-C line built from equipment + topology JSON, and compared per channel (+/-3 udB); every
@@ -13,6 +14,9 @@ B3  every ROADM crossing recorded inside the real gnpy.topology.request.propagat
     the one of the LAUNCHED request keyed by channel frequency (not the array that travels with the spectral
     information); user spectra with different offsets per partition, partly outside the amplifiers' band (carriers
     filtered out at launch) or spread over two bands (demultiplexed per band), are among the propagated requests.
+    The real planning pipeline (planning -> compute_path_with_disjunction) is also recorded: bidirectional requests
+    without imposed mode on a transceiver whose modes carry equalisation offsets; every pass, Z->A included, is judged
+    against the offset the equipment library gives to the mode of the propagated baud rate.
 """
 import random
 import traceback
@@ -22,7 +26,7 @@ import numpy as np
 from harness import tlc
 from harness import line_util as L
 from harness.core import Machinery
-from harness.gnpy_util import EX, TD
+from harness.gnpy_util import EX, TD, NONE
 
 FREQ = [193.0e12, 193.1e12, 193.2e12]
 BAUD = [32e9, 64e9, 90e9]
@@ -43,6 +47,7 @@ def cfg_text(offsets, load_only=False, emit=None, maxloss='MCMaxLossVecsQuick'):
         base = base.replace('Deltas <- MCDeltas', 'Deltas <- MCDeltaOne')
         base = base.replace(f'OffsetVecs <- {offsets}', 'OffsetVecs <- MCOffsetOne')
         base = base.replace(f'MaxLossVecs <- {maxloss}', 'MaxLossVecs <- MCMaxLossOne')
+        base = base.replace('ProfKinds <- MCProfKinds', 'ProfKinds <- MCProfOne')
     if emit:
         base = '\n'.join(ln for ln in base.splitlines() if not ln.startswith(('INVARIANT', 'PROPERTY')))
         base += f'\nINVARIANT {emit}\n'
@@ -63,15 +68,15 @@ base_eqpt = L.base_eqpt
 RANGES = [(191.3e12, 193.05e12), (193.05e12, 193.15e12), (193.15e12, 196.1e12)]
 
 
-def impairments(maxloss_by_type, minimal=False):
-    """one impairment profile per internal path type, with one frequency range per channel of the case
-    (maxloss_by_type: {path type: [loss of range 1, 2, 3]}); minimal: only roadm-maxloss is given (as in the
-    express-path example of docs/json.rst), otherwise roadm-pmd / roadm-pdl are written too"""
+def impairments(profiles, minimal=False):
+    """the roadm-path-impairments list of the library entry, in the given LISTING order.  profiles: [(id, path type,
+    [loss of range 1, 2, 3] in dB)]; one frequency range per channel of the case; minimal: only roadm-maxloss is given
+    (as in the express-path example of docs/json.rst), otherwise roadm-pmd / roadm-pdl are written too"""
     extra = {} if minimal else {'roadm-pmd': 0, 'roadm-pdl': 0}
     return [{'roadm-path-impairments-id': i,
              f'roadm-{t}-path': [dict({'frequency-range': {'lower-frequency': lo, 'upper-frequency': hi},
                                        'roadm-maxloss': ml}, **extra) for (lo, hi), ml in zip(RANGES, mls)]}
-            for i, (t, mls) in enumerate(maxloss_by_type.items())]
+            for i, t, mls in profiles]
 
 
 line_topology = L.line_topology
@@ -80,18 +85,23 @@ line_topology = L.line_topology
 DEGREES = {'add': ('trx B', 'booster BC'), 'drop': ('preamp AB', 'trx B'), 'express': ('preamp AB', 'booster BC')}
 
 
-def build(lib, elt, node_v, deg=None, crossing='express', maxloss_udb=(0, 0, 0), design=True, minimal_profile=False):
+def build(lib, elt, node_v, deg=None, crossing='express', profiles=None, explicit_id=None, design=True,
+          minimal_profile=False):
     """equipment + topology JSON for one configuration -> (designed network, roadm B).  lib / elt: lists of policy
     kinds written in the library entry / in the element; node_v: {kind: value in udB}; deg: the spec's egress-degree
-    setting"""
+    setting; profiles: the spec's profiles of the crossed path type as listed [{id, type, loss}] (udB); explicit_id: the
+    profile the element names for the crossed pair of degrees (per_degree_impairments), None if none"""
     from gnpy.tools.json_io import load_eqpt_topo_from_json
     from gnpy.tools.worker_utils import designed_network
     eq_json = base_eqpt()
-    ml = [x / 1e6 for x in maxloss_udb]
+    profiles = profiles or [{'id': 1, 'type': crossing, 'loss': [0, 0, 0]}]
+    listed = [(p['id'], p['type'], [x / 1e6 for x in p['loss']]) for p in profiles]
+    # the other path types come after, with their own ids and 1 dB more loss than the first listed profile
+    listed += [(11 + k, t, [x + OTHER_LOSS for x in listed[0][2]])
+               for k, t in enumerate(t for t in ('express', 'add', 'drop') if t != crossing)]
     entry = {'type_variety': 'verif', 'add_drop_osnr': 38, 'pmd': 0, 'pdl': 0,
              'restrictions': {'preamp_variety_list': [], 'booster_variety_list': []},
-             'roadm-path-impairments': impairments({t: (ml if t == crossing else [x + OTHER_LOSS for x in ml])
-                                                    for t in ('express', 'add', 'drop')}, minimal_profile)}
+             'roadm-path-impairments': impairments(listed, minimal_profile)}
     for k in lib:
         entry[KEYS[k]] = policy_value(k, node_v[k])
     eq_json['Roadm'].append(entry)
@@ -100,6 +110,9 @@ def build(lib, elt, node_v, deg=None, crossing='express', maxloss_udb=(0, 0, 0),
         params[KEYS[k]] = policy_value(k, node_v[k])
     if deg and deg['has']:
         params[DKEYS[deg['kind']]] = {DEGREES[crossing][1]: policy_value(deg['kind'], deg['v'])}
+    if explicit_id is not None:
+        params['per_degree_impairments'] = [{'from_degree': DEGREES[crossing][0], 'to_degree': DEGREES[crossing][1],
+                                             'impairment_id': explicit_id}]
     topo = line_topology(params)
     # the other two ROADMs always carry a plain library policy
     for e in topo['elements']:
@@ -132,16 +145,19 @@ class Replay:
         self.benches = {}
         self.traces = {}
         self.worst = 0.0
-        self.counts = {'above': 0, 'below': 0, 'mixed': 0, 'deg_other_kind': 0, 'below_in_lower_loss_range': 0}
+        self.counts = {'above': 0, 'below': 0, 'mixed': 0, 'deg_other_kind': 0, 'below_in_lower_loss_range': 0,
+                       'degree_set_to_zero': 0, 'profiles_not_listed_by_id': 0, 'profile_named_by_element': 0}
 
     def bench(self, cs, minimal_profile):
-        key = (tuple(cs['lib']), tuple(cs['elt']), cs['degKind'], cs['crossing'], tuple(cs['maxloss']), minimal_profile)
+        key = (tuple(cs['lib']), tuple(cs['elt']), cs['degKind'], cs['crossing'], tuple(cs['maxloss']), cs['prof'],
+               minimal_profile)
         if key not in self.benches:
             node_v = {cs['node']['kind']: cs['node']['v']}
             # a library default of another kind (replaced by the element) keeps its own plausible value
             for k in cs['lib']:
                 node_v.setdefault(k, {'pch': -20000000, 'psd': -35000000, 'psw': -37000000}[k])
-            self.benches[key] = build(cs['lib'], cs['elt'], node_v, cs['deg'], cs['crossing'], cs['maxloss'],
+            self.benches[key] = build(cs['lib'], cs['elt'], node_v, cs['deg'], cs['crossing'], cs['profiles'],
+                                      None if cs['explicitId'] == NONE else cs['explicitId'],
                                       minimal_profile=minimal_profile)
         return key, self.benches[key][1]
 
@@ -151,14 +167,18 @@ class Replay:
         frm, to = DEGREES[cs['crossing']]
         rels = [relation(c) for c in cs['ch']]
         cls = f"node={cs['node']['kind']}@{'elt' if cs['elt'] else 'lib'}|deg={cs['degKind']}|{cs['crossing']}" \
-              f"|maxloss={'0' if not any(cs['maxloss']) else 'uniform' if len(set(cs['maxloss'])) == 1 else 'per-range'}|offsets={'0' if not any(c['offset'] for c in cs['ch']) else 'mixed'}"
+              f"|maxloss={'0' if not any(cs['maxloss']) else 'uniform' if len(set(cs['maxloss'])) == 1 else 'per-range'}" \
+              f"{'' if cs['prof'] == 'single' else '|profiles=' + cs['prof']}|offsets={'0' if not any(c['offset'] for c in cs['ch']) else 'mixed'}"
         if minimal_profile:
             cls = 'impairment profile gives roadm-maxloss only|' + cls
         else:
             self.counts['above'] += 'above' in rels
             self.counts['below'] += 'below' in rels
             self.counts['mixed'] += ('above' in rels and 'below' in rels)
-            self.counts['deg_other_kind'] += (cs['degKind'] != 'none' and cs['degKind'] != cs['node']['kind'])
+            self.counts['deg_other_kind'] += (cs['degKind'] != 'none' and cs['deg']['kind'] != cs['node']['kind'])
+            self.counts['degree_set_to_zero'] += cs['degKind'] == 'pch0'
+            self.counts['profiles_not_listed_by_id'] += cs['prof'] == 'firstListed'
+            self.counts['profile_named_by_element'] += cs['prof'] == 'explicit'
             self.counts['below_in_lower_loss_range'] += any(r == 'below' and c['maxloss'] < max(cs['maxloss'])
                                                             for r, c in zip(rels, cs['ch']))
         chk.case(cls + '|' + ','.join(f"{c['in']}:{c['offset']}" for c in cs['ch']), nontrivial=('above' in rels))
@@ -185,7 +205,7 @@ class Replay:
             chk.violation(f'B2|{cls}|policy in force', dict(case=cs, npol=npol, code_node=node))
         else:
             chk.traces += 1
-        if len(chk.samples) < 2 and 'above' in rels and 'below' in rels and cs['degKind'] not in ('none', cs['node']['kind']):
+        if len(chk.samples) < 2 and 'above' in rels and 'below' in rels and cs['deg']['has'] and cs['deg']['kind'] != cs['node']['kind']:
             chk.sample(dict(kind='B2 case executed on a real Roadm', config=cls, channels=cs['ch'], code_out_udb=got))
         e = L.roadm_event(rec.events[-1]) if rec.events else None
         if e is not None:
@@ -211,6 +231,9 @@ def replay_crossings(cases, chk):
     chk.cov['b2_cases_mixed_above_and_below'] = counts['mixed']
     chk.cov['b2_cases_degree_setting_of_other_kind'] = counts['deg_other_kind']
     chk.cov['b2_cases_unequalised_channel_in_lower_loss_range'] = counts['below_in_lower_loss_range']
+    chk.cov['b2_cases_degree_set_to_exactly_zero'] = counts['degree_set_to_zero']
+    chk.cov['b2_cases_two_profiles_not_listed_by_id'] = counts['profiles_not_listed_by_id']
+    chk.cov['b2_cases_profile_named_by_element'] = counts['profile_named_by_element']
     if not all(counts.values()):
         raise Machinery(f'vacuous generation: {counts}')
     return [{'name': n, 'ev': ev} for n, ev in rp.traces.items()]
@@ -310,6 +333,76 @@ def shipped_roadm_traces(chk, rng):
     return traces
 
 
+# a transceiver whose modes carry their own equalisation offset (no shipped library has one)
+OFFSET_TRX = {"type_variety": "verif_offsets", "frequency": {"min": 191.3e12, "max": 196.1e12},
+              "mode": [{"format": "m64", "baud_rate": 64e9, "OSNR": 15, "bit_rate": 200e9, "roll_off": 0.15, "tx_osnr": 40,
+                        "min_spacing": 75e9, "equalization_offset_db": 2.5, "cost": 1},
+                       {"format": "m32", "baud_rate": 32e9, "OSNR": 11, "bit_rate": 100e9, "roll_off": 0.15, "tx_osnr": 40,
+                        "min_spacing": 37.5e9, "equalization_offset_db": -1.5, "cost": 1}]}
+
+
+def planning_traces(chk):
+    """ROADM crossings of the real planning pipeline (planning -> compute_path_with_disjunction): bidirectional
+    requests WITHOUT an imposed mode on a transceiver whose modes carry equalisation offsets; every propagation pass
+    (mode exploration A->Z, and the Z->A propagation with the selected mode) is judged against the offset the
+    equipment library gives to the mode of the propagated baud rate"""
+    from harness.record import Recording
+    from gnpy.tools.json_io import _equipment_from_json, load_network, DEFAULT_EXTRA_CONFIG
+    from gnpy.tools.worker_utils import designed_network, planning
+    eq_json = base_eqpt()
+    eq_json['Transceiver'].append(OFFSET_TRX)
+    offset_by_baud = {m['baud_rate']: m['equalization_offset_db'] for m in OFFSET_TRX['mode']}      # configuration
+    eq = _equipment_from_json(eq_json, DEFAULT_EXTRA_CONFIG)
+    net, _, _ = designed_network(eq, load_network(EX / 'meshTopologyExampleV2.json', eq))
+
+    def svc(rid, a, b, spacing):
+        return {"request-id": rid, "source": a, "destination": b, "src-tp-id": a, "dst-tp-id": b, "bidirectional": True,
+                "path-constraints": {"te-bandwidth": {"technology": "flexi-grid", "trx_type": "verif_offsets",
+                                                      "spacing": spacing, "path_bandwidth": 100e9}}}
+    data = {"path-request": [svc('wide', 'trx Lannion_CAS', 'trx Vannes_KBE', 75e9),
+                             svc('narrow', 'trx Brest_KLA', 'trx Rennes_STA', 50e9)]}
+    try:
+        with Recording() as rec:
+            _, _, _, rqs, _, _ = planning(net, eq, data)
+    except Exception as ex:                                              # noqa
+        chk.violation(f'B3|planning|exception|{type(ex).__name__}', dict(services=data, exception=traceback.format_exc()[-1500:]))
+        return []
+    sources = {r.source for r in rqs}
+    passes, cur = [], None
+    for ev in rec.events:
+        if ev['depth'] != 0:
+            continue
+        if ev['cls'] == 'Transceiver':
+            if cur is None:
+                cur = {'from': ev['uid'], 'ev': []}
+            else:
+                cur['to'] = ev['uid']
+                passes.append(cur)
+                cur = None
+        elif cur is not None and ev['cls'] == 'Roadm':
+            cur['ev'].append(ev)
+    traces = []
+    reverse = nonzero = 0
+    for k, p in enumerate(passes):
+        if not p['ev']:
+            continue
+        baud = float(p['ev'][0]['pre']['baud_rate'][0])
+        if baud not in offset_by_baud:
+            raise Machinery(f'planning pass with baud rate {baud} not in the transceiver')
+        out = [e for e in (L.roadm_event(ev, offset_of=offset_by_baud[baud], reported=False) for ev in p['ev']) if e]
+        is_rev = p['from'] not in sources
+        reverse += is_rev
+        nonzero += offset_by_baud[baud] != 0
+        traces.append({'name': f'planning pass {k} {p["from"]}->{p["to"]} {baud / 1e9:.0f}G{" (Z->A)" if is_rev else ""}', 'ev': out})
+        chk.case(f'planning|{p["from"]}|{p["to"]}|{baud}', nontrivial=True)
+    chk.cov['b3_planning_passes'] = len(traces)
+    chk.cov['b3_planning_reverse_passes'] = reverse
+    chk.cov['b3_planning_selected_modes'] = sorted({str(getattr(r, 'tsp_mode', None)) for r in rqs})
+    if not reverse or not nonzero:
+        raise Machinery('planning scenario is vacuous (no Z->A pass or no mode with an offset)')
+    return traces
+
+
 def report_trace_verdicts(chk, traces, verdicts, origin):
     for t in traces:
         v = verdicts[t['name']]
@@ -344,7 +437,7 @@ def run(chk):
     replay_loads(r3.emitted, chk)
     # ---- B3
     rng = random.Random(chk.seed)
-    traces = shipped_roadm_traces(chk, rng)
+    traces = shipped_roadm_traces(chk, rng) + planning_traces(chk)
     verdicts = L.judge(chk, traces, 'c06-trace')
     report_trace_verdicts(chk, traces, verdicts, 'B3')
     v2 = L.judge(chk, b2_traces, 'c06-trace-b2')
@@ -429,7 +522,18 @@ def _mut_maxloss_scalar():
     E.Roadm.get_impairment = get_impairment
 
 
+def _mut_per_degree_zero_dropped():
+    """per-degree targets whose value is falsy (0 dBm) are ignored"""
+    import gnpy.core.elements as E
+    orig = E.Roadm.__init__
+
+    def init(self, *a, **k):
+        orig(self, *a, **k)
+        self.per_degree_pch_out_dbm = {d: v for d, v in self.per_degree_pch_out_dbm.items() if v}
+    E.Roadm.__init__ = init
+
+
 MUTANTS = {'node_despite_degree': _mut_node_despite_degree, 'psd_by_slot_width': _mut_psd_by_slot_width,
            'offset_ignored': _mut_offset_ignored, 'boost_below_target': _mut_boost_below_target,
            'maxloss_after_compare': _mut_maxloss_after_compare, 'two_policies_accepted': _mut_two_policies_accepted,
-           'maxloss_scalar': _mut_maxloss_scalar}
+           'maxloss_scalar': _mut_maxloss_scalar, 'per_degree_zero_dropped': _mut_per_degree_zero_dropped}
